@@ -308,7 +308,10 @@ def gen_spec(rng, **knobs) -> dict:
             ant_vars = list(inputs)
             if k["outputs_in_antecedents"] and rng.random() < 0.2:
                 ant_vars = ant_vars + outputs
-            ant = gen_ast(rng, ant_vars, rng.randint(0, k["depth"]), k["max_hedges"])
+            depth = rng.randint(0, k["depth"]) if rng.random() > 0.02 else 5  # rarely: a very long antecedent
+            ant = gen_ast(rng, ant_vars, depth, k["max_hedges"])
+            if rules and rng.random() < 0.12:
+                ant = copy.deepcopy(rules[-1]["ant"])  # same antecedent as the rule before: exactly tied activation degrees
             ncon = 1 if rng.random() < 0.7 else min(2, n_out + 1)
             con = [gen_prop(rng, C(rng, outputs), 1 if rng.random() < 0.3 else 0, False) for _ in range(ncon)]
             rules.append({"ant": ant, "con": con, "weight": None if rng.random() < 0.7 else fenc(C(rng, [0.5, 0.25, 0.75, 0.1, 1.5, 0.0, 1.0, 0.3456, 0.12345678, 0.9995, 1.0004])),  # incl. more digits than `decimals` and values within atol of 1
@@ -525,7 +528,7 @@ def draw_input(rng, var: dict, special: float = 0.2) -> float:
         if not lo < hi:
             lo, hi = lo - 1.0, hi + 1.0
     if r < special * 0.5:
-        return C(rng, [inf, -inf, inf, -inf, 1e308, -1e308, 5e-324, 1e-300])
+        return C(rng, [inf, -inf, inf, -inf, 1e308, -1e308, 5e-324, 1e-300, -0.0])
     if r < special:
         return C(rng, [lo - (hi - lo) * 0.25, hi + (hi - lo) * 0.25, lo - 1e-9, hi + 1e-9])
     if r < special + 0.1:
